@@ -31,7 +31,7 @@ TESTED_ONLY = {
  'C14': ['agreement of listings, counts, Euler characteristic, Betti numbers of the index-aware queries with the snapshot (oracle c14 per query; membership / order / faces of visible simplices are proved); setMinimumIndex / setMaximumIndex'],
  'C15': ['the renaming function of a whole relabel being the user mapping on every name, attributes along it, relabelDisjointFrom renaming only collisions, addSimplicesFrom isomorphism (oracle c15-pre/post); names-only, structure carried and Betti invariance are proved'],
  'C16': ['compatible => accepted, merged attribute values, target complexes (oracle c16); result = union and accepted => compatible are proved for every pair'],
- 'C17': ['the JSON text layer (json.dumps / loads, files), name types, nested / unicode attribute values, wrapping in other JSON, filtrations (oracle c17)'],
+ 'C17': ['the JSON text layer (json.dumps / loads, files), name types, nested / unicode attribute values, wrapping in other JSON, filtrations, acceptance of every encoding (oracle c17); the structural round trip is proved for every complex'],
  'C18': ['arbitrary targets beyond 3 points; requested name / attributes of the top simplex on non-empty targets (oracle c18)'],
  'C19': ['the Euler integral: level-set and simplex-wise formulas, default value, additivity, input unchanged (oracle c19); Euler characteristic = alternating Betti sum is proved for every history'],
  'C20': ['positionsOf / len / in against the complex (oracle c20); Euclidean distance and lattice positions on arbitrary doubles: the binary64 model is compared bit for bit with the code on every run, not proved about real numbers'],
